@@ -26,6 +26,16 @@ for i in range(1, 21):
                 l = "#### " + l[3:]
             lines.append(l)
         out.append("\n".join(lines) + "\n--------------------------------------------------------------------------------\n")
+if os.path.exists(os.path.join(V, "design/E2E.md")):
+    txt = rd("design/E2E.md")
+    lines = []
+    for l in txt.split("\n"):
+        if l.startswith("# "):
+            l = "### " + l[2:]
+        elif l.startswith("## "):
+            l = "#### " + l[3:]
+        lines.append(l)
+    out.append("\n".join(lines) + "\n")
 out.append("---------------------------------------------------------------------------------------\n")
 out.append(rd("design/_60_findings.md"))
 out.append("---------------------------------------------------------------------------------------\n")
@@ -60,7 +70,7 @@ out.append("## 11. Seeded changes: which checks catch which\n\nEach change was w
            "something specific to manifest. Each was confirmed by the integrator in a scratch worktree (`tools/seedtest.sh`: the "
            "demonstration passes on the unchanged tree and fails with the change; the baseline suite is unaffected: 155 passed, "
            "the same 13 environment failures) and is kept under `seeded/<id>/` (patch.diff, demo.py, meta.json). No change was "
-           "ever committed to `/repo`. 33 of the 40 were detected by the first run of the checks; the 7 marked *initially "
+           "ever committed to `/repo`. Rows whose id contains `-r2-` are from the second round. " + str(len(rows) - sum('initially MISSED' in r for r in rows)) + " of the " + str(len(rows)) + " were detected by the checks as they stood when the change arrived; the " + str(sum('initially MISSED' in r for r in rows)) + " marked *initially "
            "MISSED* led to the generator improvements named in the row and are detected now.\n\n"
            "| seeded change | property | what it does | detected by |\n|---|---|---|---|\n" + "\n".join(rows) + "\n\n"
            "---------------------------------------------------------------------------------------\n")
